@@ -57,9 +57,9 @@ def design(ck):
     """All TLC runs on the design model (exhaustive configurations, mutants, simulation) run concurrently."""
     quick = ck.tier == "quick"
     runs = DESIGN_QUICK if quick else DESIGN_THOROUGH
-    tmo = 170 if quick else 1500
+    tmo = 900 if quick else 2400   # generous: the machine is shared; a timeout is exit 2, not a verdict
     muts = [m for m in MUTANTS if m[0] in ("mut-peek", "mut-whole", "mut-past")] if quick else MUTANTS
-    jobs = [("design",) + r for r in runs] + [("mutant",) + m for m in muts] + ([] if quick else [("strict",) + STRICT + ("",)])
+    jobs = [("design",) + r for r in runs] + [("mutant",) + m for m in muts] + [("strict",) + STRICT + ("",)]
     combos = [(2, 3), (3, 2), (1, 2)] if quick else [(2, 3), (3, 2), (1, 2), (2, 2), (3, 3), (1, 1), (4, 2)]
     num = 60 if quick else 250
     jobs += [("sim", "sim%d%d" % c, "MCChainExchangeSim.cfg", [("CapW = 2", "CapW = %d" % c[0]), ("CapD = 3", "CapD = %d" % c[1])], c) for c in combos]
@@ -85,7 +85,10 @@ def design(ck):
             ck.cov["configs"].append(dict(config="mutant:" + tag, refuted=r.violated, counterexample_states=len(r.trace),
                                           wall_s=round(r.wall, 1)))
         else:
-            # the property's sentence without the "first arrival or room" precondition: recorded, not judged
+            # the property's sentence without the "first arrival or room" precondition must be refuted on the
+            # as-coded design (known finding F10; non-vacuity of C18_AdmitRetrievableStrict)
+            if r.violated != "A_AdmitRetrievable":
+                raise Inconclusive("StrictAdmit=TRUE was expected to be refuted by TLC (F10), got violated=%s error=%s" % (r.violated, r.error))
             ck.notes.append("AdmitRetrievable without the precondition (StrictAdmit=TRUE, caps 3/3) on the as-coded design: "
                             + ("refuted by TLC in %d states (a chain filed again can be evicted by its own prefixes)" % len(r.trace)
                                if r.violated == "A_AdmitRetrievable" else "not refuted (violated=%s error=%s)" % (r.violated, r.error)))
@@ -120,11 +123,27 @@ def cov_of(r):
     return json.loads(m.group(1).replace('\\"', '"'))
 
 
+STRICT_CLAUSE = "C18_AdmitRetrievableStrict"   # known finding F10 (signature ^C18_AdmitRetrievableStrict$)
+
+
 def validate(ck, trace, name, need):
-    r, ev = vlib.validate_trace(ck, SPECDIR, "ChainExchangeTrace", "ChainExchangeTrace.cfg", trace, name,
-                                count_traces=lambda ev: sum(1 for e in ev if e["ev"] == "Reset"), timeout=1500)
+    count = lambda ev: sum(1 for e in ev if e["ev"] == "Reset")
+    r, ev = vlib.validate_trace(ck, SPECDIR, "ChainExchangeTrace", "ChainExchangeTrace.cfg", trace, name, count_traces=count, timeout=1500)
     if ck.violations:
         return r, ev
+    if not any(c.get("config") == "trace:" + name for c in ck.cov["configs"]):
+        # validate_trace returns early when a property clause failed; here only the known strict clause did
+        # (ck.violations is empty), so finish its job: conformance, completeness of the trace, accounting.
+        bad = [(int(m.group(1)), c) for m in vlib._re_bad.finditer(r.out) for c in re.findall(r'"([^"]+)"', m.group(2))]
+        other = [(l, c) for l, c in bad if c != STRICT_CLAUSE]
+        if other:
+            l, c = other[0]
+            raise Inconclusive("spec drift: %s at line %d of trace %s: %s" % (c, l, name, json.dumps(ev[l - 1])[:400]))
+        if r.error or r.distinct != len(ev) + 1:
+            raise Inconclusive("trace %s not accepted (distinct=%d, events=%d, error=%s)\n%s" % (name, r.distinct, len(ev), r.error, r.out[-1500:]))
+        ck.cov["traces_validated_against_impl"] += count(ev)
+        ck.cov["evaluations"] += len(ev)
+        ck.add_tlc("trace:" + name, r, exhaustive=False, note="%d events recorded from the real code, every state checked" % len(ev))
     cov = cov_of(r)
     ck.cov.setdefault("clause_antecedents", {})[name] = cov
     kinds = {}
@@ -158,7 +177,8 @@ def run(ck):
                                                                         VERIF_SCRIPTED="1" if s == seeds[0] else "0"), timeout=900)
         if rc != 0:
             raise Inconclusive("driver failed:\n" + out[-3000:])
-        r, ev = validate(ck, trace, "seed%d" % s, ["hit", "stored", "fits", "retainedKeys", "retainedLookup", "evicted", "badMsg", "accepted", "pruneBoth"])
+        r, ev = validate(ck, trace, "seed%d" % s, ["hit", "stored", "fits", "retainedKeys", "retainedLookup", "evicted", "badMsg", "accepted", "pruneBoth"]
+                         + (["strictOnly"] if s == seeds[0] else []))
         if ck.violations:
             return
         ck.sample(dict(trace="seed%d" % s, first_events=[{k: v for k, v in e.items() if k not in ("w", "d")} for e in ev[:10]]))
